@@ -1,6 +1,9 @@
 pub mod builtin;
+pub mod compressed;
 pub mod dedup;
 pub mod derived;
+pub mod encoding;
+pub mod graphs;
 pub mod evolution;
 pub mod faults;
 pub mod framing;
@@ -22,11 +25,14 @@ pub fn run(cx: &Cx) -> PropResult {
         "C07" => framing::run_c07(cx),
         "C08" => framing::run_c08(cx),
         "C09" => dedup::run_c09(cx),
+        "C10" => graphs::run_c10(cx),
         "C11" => varint::run(cx),
         "C12" => framing::run_c12(cx),
         "C13" => derived::run_c13(cx),
         "C14" => derived::run_c14(cx),
         "C15" => sinks::run(cx),
+        "C16" => compressed::run_c16(cx),
+        "C17" => encoding::run_c17(cx),
         other => {
             eprintln!("unknown property {other}");
             std::process::exit(2)
@@ -45,11 +51,14 @@ pub fn replay(cx: &Cx, case: &Value) -> Verdict {
         "C07" => framing::replay_c07(case),
         "C08" => framing::replay_c08(case),
         "C09" => dedup::replay_c09(case),
+        "C10" => graphs::replay_c10(case),
         "C11" => varint::replay(case),
         "C12" => framing::replay_c12(case),
         "C13" => derived::replay_c13(case),
         "C14" => derived::replay_c14(case),
         "C15" => sinks::replay(case),
+        "C16" => compressed::replay_c16(case),
+        "C17" => encoding::replay_c17(case),
         other => {
             eprintln!("unknown property {other}");
             std::process::exit(2)
@@ -64,6 +73,7 @@ pub fn regen(cx: &Cx, shard: usize, stream: u64, index: u64) -> Option<Value> {
         "C02" => derived::regen_c02(cx, shard, stream, index),
         "C05" => faults::regen_c05(cx, shard, stream, index),
         "C09" => dedup::regen_c09(cx, shard, stream, index),
+        "C16" => compressed::regen_c16(cx, shard, stream, index),
         "C06" => faults::regen_c06(cx, shard, stream, index),
         _ => None,
     }
